@@ -60,8 +60,9 @@ func Default() Case              { return Case{Kind: 2} }
 
 // Point describes one scheduling decision for the explorer.
 type Point struct {
-	Enabled    []int // goroutine ids, canonical order: running first if still enabled, then ascending
-	Sub        []int // for the chosen goroutine: number of ready select cases (1 otherwise)
+	Enabled    []int // goroutine ids in canonical order (the default choice first)
+	Sub        []int // per enabled goroutine: number of ready select cases (1 otherwise)
+	Cost       []int // per enabled goroutine: deviations charged for choosing it at this point
 	Running    int
 	RunEnabled bool
 	Labels     []string
@@ -230,17 +231,61 @@ func (s *Sched) loop() {
 				subs = append(subs, rd)
 			}
 		}
+		// Canonical order and deviation costs.
+		//  - the goroutine that ran last, if still enabled at an ordinary operation, comes first and
+		//    continuing it is free; switching away from it is a preemption (cost 1);
+		//  - if it parked at a voluntary Yield (spin/poll loops, environment steps) the default is to hand
+		//    over to the next goroutine (fairness: a spinning goroutine cannot starve the others); any
+		//    other choice, including continuing the yielder, costs 1;
+		//  - if it is blocked or finished, every choice is free.
+		yielded := false
 		if s.lastRun >= 0 && !s.gors[s.lastRun].done {
-			if ok, _ := s.enabled(s.gors[s.lastRun]); ok {
+			lr := s.gors[s.lastRun]
+			if ok, _ := s.enabled(lr); ok {
 				runStill = true
-				add(s.gors[s.lastRun])
+				yielded = lr.pending != nil && lr.pending.kind == opYield
 			}
 		}
-		for _, g := range s.gors {
+		var costs []int
+		if runStill && !yielded {
+			add(s.gors[s.lastRun])
+			costs = append(costs, 0)
+		}
+		// others in ascending id order starting after the last runner (round robin)
+		n := len(s.gors)
+		startAt := 0
+		if s.lastRun >= 0 {
+			startAt = s.lastRun + 1
+		}
+		for k := 0; k < n; k++ {
+			g := s.gors[(startAt+k)%n]
 			if g.done || (runStill && g.id == s.lastRun) {
 				continue
 			}
+			before := len(en)
 			add(g)
+			if len(en) > before {
+				switch {
+				case runStill && !yielded:
+					costs = append(costs, 1)
+				case runStill && yielded:
+					if len(costs) == 0 {
+						costs = append(costs, 0) // the fair default
+					} else {
+						costs = append(costs, 1)
+					}
+				default:
+					costs = append(costs, 0)
+				}
+			}
+		}
+		if runStill && yielded {
+			add(s.gors[s.lastRun])
+			if len(costs) == 0 {
+				costs = append(costs, 0) // nobody else can run: continuing is the only option
+			} else {
+				costs = append(costs, 1)
+			}
 		}
 		if len(en) == 0 {
 			s.Deadlock = true
@@ -258,7 +303,7 @@ func (s *Sched) loop() {
 			s.Aborted = "horizon exceeded"
 			return
 		}
-		pt := Point{Running: s.lastRun, RunEnabled: runStill}
+		pt := Point{Running: s.lastRun, RunEnabled: runStill, Cost: costs}
 		for i, g := range en {
 			pt.Enabled = append(pt.Enabled, g.id)
 			n := 1
@@ -496,16 +541,20 @@ type Explorer struct {
 	MaxPoints int
 }
 
+// optionCost: deviations charged for flattened choice c at point p.
+func optionCost(p Point, c int) int {
+	gi := 0
+	for c >= p.Sub[gi] {
+		c -= p.Sub[gi]
+		gi++
+	}
+	return p.Cost[gi]
+}
+
 func (e *Explorer) preemptionsBefore(x *Sched, i int) int {
 	cost := 0
 	for k := 0; k < i; k++ {
-		p := x.Points[k]
-		if p.RunEnabled {
-			// canonical order puts the running goroutine first: its options are indices [0, Sub[0])
-			if x.Choices[k] >= p.Sub[0] {
-				cost++
-			}
-		}
+		cost += optionCost(x.Points[k], x.Choices[k])
 	}
 	return cost
 }
@@ -537,10 +586,7 @@ func (e *Explorer) explore(prefix []int) {
 			total += n
 		}
 		for alt := 1; alt < total; alt++ {
-			cost := base
-			if p.RunEnabled && alt >= p.Sub[0] {
-				cost++
-			}
+			cost := base + optionCost(p, alt)
 			if cost > e.Bound {
 				continue
 			}
